@@ -15,6 +15,16 @@ open Extracted.Formula
 
 set_option linter.unusedSimpArgs false
 
+/-- `simp` with every translated step body and every float primitive unfolded (whatever comparisons, negations or
+conditional forms the current source uses). -/
+syntax "pyf_simp" ("[" Lean.Parser.Tactic.simpLemma,* "]")? : tactic
+macro_rules
+  | `(tactic| pyf_simp) => `(tactic| pyf_simp [])
+  | `(tactic| pyf_simp [$ts,*]) => `(tactic|
+      simp [binVal, unVal, binAdder, binSubtractor, binMultiplier, binDivider, binMaximizer, binMinimizer,
+        unConsumption, unProduction, PyF.add, PyF.sub, PyF.mul, PyF.neg, PyF.div, PyF.max, PyF.min, PyF.gt, PyF.lt,
+        PyF.ge, PyF.le, PyF.eq, PyF.ne, PyF.lit, PyF.nan, PyF.isnan, bind, Except.bind, pure, Except.pure, $ts,*])
+
 /-! ## Frame lemmas: a step only touches the top of the stack -/
 
 theorem applyOp_bin (o : BinOp) (a b : V) (vs : List V) :
@@ -44,15 +54,15 @@ theorem emitValue_id (v : V) : emitValue v = v := by
 
 theorem binVal_add (a b : V) : binVal .add a b = .ok (PyF.add a b) := by
   cases a <;> cases b <;>
-    simp [binVal, binAdder, PyF.add, PyF.sub, PyF.mul, PyF.neg, bind, Except.bind, pure, Except.pure] <;> grind
+    pyf_simp <;> grind
 
 theorem binVal_sub (a b : V) : binVal .sub a b = .ok (PyF.sub a b) := by
   cases a <;> cases b <;>
-    simp [binVal, binSubtractor, PyF.add, PyF.sub, PyF.mul, PyF.neg, bind, Except.bind, pure, Except.pure] <;> grind
+    pyf_simp <;> grind
 
 theorem binVal_mul (a b : V) : binVal .mul a b = .ok (PyF.mul a b) := by
   cases a <;> cases b <;>
-    simp [binVal, binMultiplier, PyF.add, PyF.sub, PyF.mul, PyF.neg, bind, Except.bind, pure, Except.pure] <;> grind
+    pyf_simp <;> grind
 
 theorem rat_mul_div (x w y : Rat) : x * w / y = x * (w / y) := by
   rw [Rat.div_def, Rat.div_def, Rat.mul_assoc]
@@ -64,13 +74,13 @@ theorem add_sub_assoc (a b d : V) : PyF.sub (PyF.add a b) d = PyF.add a (PyF.sub
 theorem mul_div_assoc (a b d : V) :
     binVal .div (PyF.mul a b) d = binVal .div b d >>= fun q => .ok (PyF.mul a q) := by
   cases a <;> cases b <;> cases d <;>
-    simp [binVal, binDivider, PyF.mul, PyF.div, PyF.eq, PyF.lit, PyF.nan, bind, Except.bind, pure, Except.pure]
+    pyf_simp
   all_goals
     rename_i y
     by_cases h : y = 0
-    · subst h; simp
+    · subst h; pyf_simp
     · have h' : ¬ (0 : Rat) = y := fun e => h e.symm
-      simp [h, h', rat_mul_div]
+      pyf_simp [h, h', rat_mul_div]
 
 /-! ## On finite operands every step is the rational operation -/
 
@@ -78,14 +88,11 @@ theorem binVal_some (o : BinOp) (x y q : Rat) (h : binQ o x y = some q) :
     binVal o (some x) (some y) = .ok (some q) := by
   cases o <;>
     simp [binQ] at h <;>
-    simp [binVal, binAdder, binSubtractor, binMultiplier, binDivider, binMaximizer, binMinimizer, PyF.add, PyF.sub,
-      PyF.mul, PyF.div, PyF.max, PyF.min, PyF.gt, PyF.lt, PyF.eq, PyF.lit, PyF.nan, PyF.isnan, bind, Except.bind,
-      pure, Except.pure, h] <;> grind
+    pyf_simp [h] <;> grind
 
 theorem unVal_some (u : UnOp) (x : Rat) : unVal u (some x) = .ok (some (unQ u x)) := by
   cases u <;>
-    simp [unVal, unQ, unConsumption, unProduction, PyF.max, PyF.neg, PyF.gt, PyF.lt, PyF.lit, pure, Except.pure] <;>
-    grind
+    pyf_simp [unQ] <;> grind
 
 /-- With every input present and no zero divisor, the tree evaluates to its value in ordinary arithmetic. -/
 theorem evalAst_arith (zf : Nat → Bool) (env : Env) (val : Nat → Rat) (a : Ast)
